@@ -100,9 +100,10 @@ class Check:
                 ok_paths += 1
                 if not reachable:
                     s = z3.Solver()
-                    s.set("timeout", 5000)
+                    s.set("timeout", 3000)
                     s.add(*r.pc)
-                    if s.check() == z3.sat:
+                    # vacuous only if *every* complete path has an unsatisfiable pc
+                    if s.check() != z3.unsat:
                         reachable = True
             for name in r.trivial:
                 full = f"{self.prop}.{group}.{name}"
